@@ -183,14 +183,16 @@ def non_function_port_refused():
     sym.check("refused_adds_no_node", len(d.hugr) == before)
 
 
-@lemma("C13", bounds="wires from a Const node, a FuncDefn node, a FuncDecl node used as dataflow values in add_op / set_outputs / add_nested")
+@lemma("C13", bounds="wires from a Const node, a FuncDefn node, a FuncDecl node, the state-order port of the Input node / of an operation with two outputs, used as dataflow values in add_op / set_outputs / add_nested")
 def non_dataflow_port_refused():
     m = Module()
     decl = m.declare_function("ext", tys.PolyFuncType([], tys.FunctionType([], [])))
     f = m.define_function("main", [tys.Bool])
     c = f.add_const(val.TRUE)
     g = m.define_function("g", [])
-    src = [c, decl, g.parent_node][sym.concretize(sym.int("src", 0, 2))]
+    two = f.add_op(ops.Custom("two", tys.FunctionType([], [tys.Bool, tys.Bool]), extension="e"))
+    # (also the state-order port of a dataflow node: not a value port, although the node has value outputs)
+    src = [c, decl, g.parent_node, f.input_node.out(-1), two.out(-1)][sym.concretize(sym.int("src", 0, 4))]
     how = sym.concretize(sym.int("how", 0, 2))
     if how == 0:
         raised = _raises(lambda: f.add_op(ops.Noop(), src), ValueError, NoSiblingAncestor)
